@@ -326,6 +326,10 @@ func defaultMonitorFactory(names []string, st *mon.Stats) []mon.Monitor {
 			ms = append(ms, mon.NewAgreement(st))
 		case "C02":
 			ms = append(ms, mon.NewFinality())
+		case "C02seq":
+			f := mon.NewFinality()
+			f.SeqOnly = true
+			ms = append(ms, f)
 		default:
 			if f, ok := monitorCtors[n]; ok {
 				ms = append(ms, f(st))
